@@ -55,6 +55,16 @@ func isSuspiciousPath(path string) bool {
 	return depth > 5
 }
 
+// ExpandHome replaces a leading "~/" by the user's home directory.
+func ExpandHome(p string) string {
+	if strings.HasPrefix(p, "~/") {
+		if home, err := os.UserHomeDir(); err == nil {
+			return filepath.Join(home, p[2:])
+		}
+	}
+	return p
+}
+
 func IsGlobPattern(path string) bool {
 	return strings.ContainsAny(path, "*?[") || strings.Contains(path, "<->")
 }
